@@ -708,6 +708,8 @@ func buildPng(r *hlib.Rand, mode, w, h int, level png.CompressionLevel, texts []
 	}
 	out := append(append(append([]byte{}, file[:33]...), ins.Bytes()...), file[33:]...)
 	c.file = out
+	nid, zs0, raw := pngIdatTruth(out)
+	c.truth = append(c.truth, kv("nidat", nid), kv("idat", hx(zs0)), kv("raw", hx(raw)))
 	// regions: type+data+crc of every chunk (d); zlib streams of zTXt chunks with re-computed chunk crc (a)
 	for p := 8; p+12 <= len(out); {
 		l := int(binary.BigEndian.Uint32(out[p:]))
